@@ -1,7 +1,9 @@
 package c02
 
 import (
+	"encoding/json"
 	"fmt"
+	"os"
 	"reflect"
 	"testing"
 
@@ -179,8 +181,37 @@ type dumpT struct {
 
 func (d *dumpT) Fatalf(f string, a ...any) { d.failed = true; d.msg = fmt.Sprintf(f, a...); panic(d) }
 
+// replayCase: when VERIF_REPLAY names a JSON dump of this enumeration, only that case is run.
+func replayCase(n int) (adj, perm, req int, ok bool) {
+	p := os.Getenv("VERIF_REPLAY")
+	if p == "" {
+		return
+	}
+	b, err := os.ReadFile(p)
+	if err != nil {
+		return
+	}
+	var d struct {
+		N, Adj, Req int
+		Perm        []int
+	}
+	if json.Unmarshal(b, &d) != nil || d.N != n {
+		return 0, 0, 0, false
+	}
+	for i, q := range perms(n) {
+		if fmt.Sprint(q) == fmt.Sprint(d.Perm) {
+			return d.Adj, i, d.Req, true
+		}
+	}
+	return
+}
+
 func enumerate(t *testing.T, n int, withRequired bool) {
 	shard, shards := kit.Shard()
+	rAdj, rPerm, rReq, replaying := replayCase(n)
+	if os.Getenv("VERIF_REPLAY") != "" && !replaying {
+		t.Skip("replay file is for another enumeration")
+	}
 	ps := perms(n)
 	total := 0
 	edgesN := n * n
@@ -189,11 +220,14 @@ func enumerate(t *testing.T, n int, withRequired bool) {
 		reqMax = 1 << n
 	}
 	for adj := 0; adj < 1<<edgesN; adj++ {
-		if adj%shards != shard {
+		if adj%shards != shard && !replaying {
 			continue
 		}
 		for pi, perm := range ps {
 			for req := 0; req < reqMax; req++ {
+				if replaying && (adj != rAdj || pi != rPerm || req != rReq) {
+					continue
+				}
 				s := &graph.Scenario{OrdMode: (adj + pi + req) % 2, OrdSeed: uint64(adj*131 + pi*17 + req)}
 				for i := 0; i < n; i++ {
 					// mask of node i: bit h set iff edge h -> i
